@@ -197,6 +197,7 @@ func (r *readOnlySegmentsGroup) PollHighestSegment() (object.RefCount[ReadOnlySe
 	r.allSegments.Remove(offset)
 	segment, found := r.openSegments.Get(offset)
 	if found {
+		r.openSegments.Remove(offset)
 		return segment.Acquire(), nil
 	}
 
